@@ -610,6 +610,38 @@ func runC15(r *Run) {
 		}
 		r.Floor("R14", "fee-pool writes in Haqq code", nRMW, 1)
 	}
+	r.Rule("R15", "PATH.selfdestruct-spares-delegators: a contract can be a staking delegator (through the staking precompile). Staking pays a matured unbonding back with bank.UndelegateCoins, which debits the not-bonded pool first and then fails for a delegator without an auth account — in the end blocker nothing rolls the debit back: the coins are gone, bank total-supply and staking module-accounts break. The EVM keeper's DeleteAccount therefore reaches RemoveAccount only after it asked the staking keeper for the account's delegations and unbonding delegations, over the edges on which there are none")
+	if da, ok := P.FnOK("(*x/evm/keeper.Keeper).DeleteAccount"); ok {
+		isRemove := isCallMatching(func(ci CallInfo) bool { return ci.Name == "RemoveAccount" })
+		bad := ""
+		var wit []ssa.Instruction
+		for _, name := range []string{"GetUnbondingDelegations", "GetDelegatorDelegations"} {
+			isAsk := isCallMatching(func(ci CallInfo) bool { return ci.Name == name })
+			if w := (PathQuery{Fn: da, Block: isAsk, Target: isRemove}).Search(); w != nil {
+				bad, wit = name+" is not consulted on a path to RemoveAccount", w
+				continue
+			}
+			teeth := false
+			for _, b := range da.Blocks {
+				iff, isIf := lastIf(b)
+				if !isIf || !backSlice(iff.Cond).HasCall(func(g CallInfo) bool { return g.Name == name }) {
+					continue
+				}
+				for _, sc := range b.Succs {
+					if (PathQuery{Fn: da, StartBlock: sc, Target: isRemove}).Search() == nil {
+						teeth = true
+					}
+				}
+			}
+			if !teeth && bad == "" {
+				bad = "the result of " + name + " decides nothing (no branch on it keeps RemoveAccount unreachable)"
+			}
+		}
+		r.Check(bad == "", "R15", fnID(da)+"#delegators-are-not-removed", P.Pos(fnPos(da)), "RemoveAccount only after both staking lookups, each with a refusing branch",
+			"SELFDESTRUCT can remove the auth account of a contract that still has delegations or unbonding delegations ("+bad+"): when its unbonding matures the not-bonded pool is debited and nobody is credited", P.witness(wit)...)
+	} else {
+		r.Bad("R15", "anchor/DeleteAccount", "", "not found")
+	}
 	r.Rule("R11", "PATH.multisend-rejects-every-blocked-output + SHAPE.staking-pools-named-by-constants: (a) the bank MsgMultiSend wrapper tests BlockedAddr for the address of every output in a loop of its own — each iteration passes the test, its true edge reaches only failure exits, and InputOutputCoins is reachable only after the loop; (b) wherever Haqq code names a staking pool account to the bank keeper (SendCoinsFromModuleToModule, UndelegateCoinsFromModuleToAccount, … in upgrade handlers) the module name is a constant at that call site, not a value chosen at run time from the validator's status: tokens of Unbonding validators sit in the not-bonded pool, and a pool picked by IsUnbonded()/IsBonded() shortcuts debits the wrong one")
 	if ms, ok := P.FnOK("(x/bank/keeper.msgServer).MultiSend"); ok {
 		okLoop := false
